@@ -16,3 +16,14 @@ func (vx *Vaxis) VerifC11NextCells() [][]Cell {
 	}
 	return out
 }
+
+// VerifC11SetWidthCaps sets the two capabilities that decide how the Window
+// text helpers measure graphemes, and drops the width cache that depends on
+// them. Only the harness calls it.
+func (vx *Vaxis) VerifC11SetWidthCaps(unicodeCore, explicitWidth bool) {
+	vx.mu.Lock()
+	defer vx.mu.Unlock()
+	vx.caps.unicodeCore = unicodeCore
+	vx.caps.explicitWidth = explicitWidth
+	vx.charCache = make(map[string]int, 256)
+}
